@@ -7,6 +7,9 @@ use crate::rng::Rng;
 const NAMES: &[&str] = &[
     "flour", "water", "salt", "olive oil", "eggs", "sugar", "tomato sauce", "milk", "butter",
     "thyme", "pâte brisée", "crème fraîche", "onion", "garlic", "7up", "dough",
+    // names that look like relative paths (files of these names exist in one process environment
+    // of the selftest: nothing may depend on the file system)
+    "pasta/spaghetti", "salt/pepper", "sauces/tomato sauce",
 ];
 const COOKWARE: &[&str] = &["pan", "oven", "big bowl", "whisk", "pot", "baking tray"];
 const UNITS: &[&str] = &[
@@ -219,10 +222,15 @@ fn frontmatter(r: &mut Rng) -> String {
             s.push_str(&format!("locale: {}\n", r.pick_str(LOCALES)));
             continue;
         }
-        let v = match r.below(7) {
+        let v = match r.below(10) {
             0 => "1h 30min".to_string(),
             1 => format!("{}", r.range(1, 90)),
             2 => "[a, b]".to_string(),
+            // YAML values of other shapes: sequences with entries of the wrong type, nested
+            // collections, booleans, null, dates
+            7 => r.pick_str(&["[a, true, b]", "[vegan, quick, true]", "[a, [b]]", "[a, {x: 1}]", "[a, b, 3.5]", "[b, a, a]", "[]", "[~, a]"]).to_string(),
+            8 => r.pick_str(&["true", "~", "2024-01-02", "{a: 1, b: [c]}", "\n  - a\n  - b\n  - 3", "'single ''quoted'''", "|\n  block\n  text"]).to_string(),
+            9 => r.pick_str(&["a, b", "vegan", "a", "[vegan, dinner]", "[a]"]).to_string(),
             3 => "\n  prep: 10 min\n  cook: 1 h".to_string(),
             4 => "\"quoted: text\"".to_string(),
             5 => ": bad".to_string(),
